@@ -155,17 +155,28 @@ def decodeIntegerValuesEb (kind numEntries nc : Nat) (md : MeshData) (pointIds :
     tag (if flipped > 0 then "pred:geometric_normal:flipped" else "pred:geometric_normal")
     pure r
 
-/-- `MeshTraversalSequencer::UpdatePointToAttributeIndexMapping` -/
-def pointToValueMap (t : TView) (faces : Array Nat) (numPoints : Nat) (v2d : Array Nat) : R (Array Nat) := do
-  let mut m := Array.replicate numPoints inv
-  for c in [0:3 * t.numFaces] do
-    let pt ← rd "mesh_->face(f)[p]" faces c
-    let v ← t.vertex c
-    if v == inv then throw .fail
-    let e ← rd "vertex_to_encoded_attribute_value_index_map" v2d v
-    if pt ≥ numPoints || e ≥ numPoints then throw .fail
-    m := m.set! pt e
-  pure m
+/-- one iteration of the corner loop of `UpdatePointToAttributeIndexMapping` -/
+def pointToValueStep (t : TView) (faces : Array Nat) (numPoints : Nat) (v2d : Array Nat) (c : Nat)
+    (m : Array Nat) : R (Array Nat) := do
+  let pt ← rd "mesh_->face(f)[p]" faces c
+  let v ← t.vertex c
+  if v == inv then throw .fail
+  let e ← rd "vertex_to_encoded_attribute_value_index_map" v2d v
+  if pt ≥ numPoints || e ≥ numPoints then throw .fail
+  pure (m.setIfInBounds pt e)
+
+/-- corners `c, c+1, …, c+n-1` -/
+def pointToValueLoop (t : TView) (faces : Array Nat) (numPoints : Nat) (v2d : Array Nat) :
+    Nat → Nat → Array Nat → R (Array Nat)
+  | 0, _, m => pure m
+  | n+1, c, m => do
+    let m' ← pointToValueStep t faces numPoints v2d c m
+    pointToValueLoop t faces numPoints v2d n (c + 1) m'
+
+/-- `MeshTraversalSequencer::UpdatePointToAttributeIndexMapping`: `SetExplicitMapping(num_points)`
+    on a fresh attribute (all entries invalid), then every corner of every face -/
+def pointToValueMap (t : TView) (faces : Array Nat) (numPoints : Nat) (v2d : Array Nat) : R (Array Nat) :=
+  pointToValueLoop t faces numPoints v2d (3 * t.numFaces) 0 (Array.replicate numPoints inv)
 
 structure EbAttState where
   desc : AttDesc
